@@ -27,7 +27,7 @@ type Case struct {
 
 func genCase(t *rapid.T) Case {
 	o := mpcl.Opts{MaxStmts: 10, MaxDepth: 3, Helpers: 2, Arrays: true,
-		Structs: true, Loops: true, ArrayParams: true, DynIndex: true, StructParams: true, PlainDiv: true}
+		Structs: true, Loops: true, ArrayParams: true, DynIndex: true, StructParams: true, PlainDiv: true, PkgConsts: true}
 	p := mpcl.Draw(t, o)
 	return Case{Prog: p, Inputs: mpcl.DrawInputs(t, p, 8)}
 }
